@@ -12,7 +12,7 @@ from hypothesis.stateful import RuleBasedStateMachine, invariant, precondition, 
 
 from vlib import c15ops
 from vlib.gen.colors import dec, enc
-from vlib.runner import HarnessError, Hyp, VERIF_DIR, Violation, exc_bucket
+from vlib.runner import Enum, HarnessError, Hyp, VERIF_DIR, Violation, exc_bucket
 from vlib.sandbox import Capture, Scratch
 
 ID = "C15"
@@ -26,7 +26,9 @@ RULE = (
     "make_readable_bulk over generated lists / in-process CLI run; after EVERY step the returned value is compared with the "
     "fresh-interpreter table and the attributes of every live ColorPair with the snapshot taken at construction. Library "
     "state persists across sequences within a worker process, so histories are much longer than one sequence. Thread leg: a "
-    "fixed workload of pool operations run from 8 threads behind a barrier in Hypothesis-drawn orders. Non-trivial: sequences in "
+    "fixed workload of pool operations run from 8 threads behind a barrier in Hypothesis-drawn orders; cold-start leg: fresh child "
+    "interpreters whose very first library calls are made concurrently from 8 threads. The validity of 47 look-alike inputs is "
+    "compared across six hash seeds. Non-trivial: sequences in "
     "which a probe follows an operation sharing its text or its background but not both, or follows a bulk / CLI run; distinct "
     "by step list."
 )
@@ -39,9 +41,9 @@ TIER = "quick"
 # (1, 1, 1) and (1.0, 1.0, 1.0) compare (and hash) equal in Python but denote different colours (8-bit ints vs unit floats):
 # a cache keyed on the raw argument confuses them
 TEXTS_Q = ["#777777", "#8a8a8a", enc((1, 1, 1)), enc((1.0, 1.0, 1.0)), "rgb(200, 30, 30)", "hsl(210, 40%, 45%)", "rgba(0, 0, 0, 0.45)"]
-BGS_Q = ["#ffffff", "#fafafa", "#b7439e"]
+BGS_Q = ["#ffffff", "rgba(0, 0, 0, 0.5)", "#b7439e"]  # a translucent background is composited over white, whatever ran before
 TEXTS_T = TEXTS_Q + ["#cfff04", "goldenrod", enc([253, 240, 243]), "#595959", enc((120, 130, 140)), "rgb(10, 20, 30, 0.6)"]
-BGS_T = BGS_Q + ["#111111", enc((220, 20, 60)), "hsl(60, 80%, 85%)"]
+BGS_T = BGS_Q + ["#111111", enc((220, 20, 60)), "hsl(60, 80%, 85%)", "#fafafa"]
 TABLE = {}
 PROCESS_TRACE = deque(maxlen=800)
 
@@ -73,7 +75,22 @@ def all_ops():
         for mode in (0, 1, 2):
             for premium in (False, True):
                 ops.append({"op": "cli", "sheet": sheet, "mode": mode, "premium": premium})
+    ops += CLI_EXTRA
     return ops
+
+
+# CLI runs with --default-bg, incl. one over a directory that holds no stylesheet at all (the early-return path)
+CLI_EXTRA = [{"op": "cli", "sheet": "none", "mode": 1, "premium": False, "default_bg": "black"},
+             {"op": "cli", "sheet": "plain", "mode": 1, "premium": False, "default_bg": "black"},
+             {"op": "cli", "sheet": "dark", "mode": 1, "premium": True, "default_bg": "#222222"}]
+
+# inputs whose VALIDITY must not depend on the hash seed: near-miss CSS with units and other look-alikes
+VALIDITY_PROBES = ["hsl(100grad, 60%, 40%)", "hsl(1.5rad, 60%, 40%)", "hsl(0.25turn, 60%, 40%)", "hsl(90deg, 60%, 40%)", "hsla(100grad, 60%, 40%, 0.5)",
+                   "rgb(1 2 3)", "1, 2, 3", "(1,2,3)", "rgb(10%, 20%, 30%)", "#abc", "abc", "abcdef", "transparent", "currentcolor", "inherit", "rgb(1,2,3,4,5)",
+                   "hsl(120 50% 50%)", "hsla(120 50% 50% / 0.5)", "rgb(255, 255, 256)", "rgb(-1, 0, 0)", "hsl(0, 101%, 50%)", "red ", " RED", "Rebeccapurple", "grey", "gray",
+                   "rgba(1,2,3,50)", "rgba(1,2,3,101)", "#12", "#1234", "#12345678", "rgb(1e2, 0, 0)", "50%", "0.5 0.5 0.5", "rgb 1 2 3", "hsv(1,2,3)",
+                   enc((1, 2)), enc((0.5, 0.5, 0.5)), enc((210, 0.5, 0.6)), enc((210, 1, 0.5)), enc(("1", "2", "3")), enc((None, 1, 2)), enc((True, False, True)),
+                   enc((0.2, 0.4, 0.6, 0.5)), enc((300, 0.5, 0.5, 0.5)), enc([255, 255, 255, 1]), enc((1, 2, 3, 4, 5))]
 
 
 def fresh(op, hashseed="0"):
@@ -97,6 +114,14 @@ def selftest():
     errs = [(o, r) for o, r in zip(ops, res) if isinstance(r, dict) and "__error__" in r]
     if errs:
         raise HarnessError(f"fresh-interpreter evaluation failed for {len(errs)} operations, e.g. {errs[0]}")
+    # validity of look-alike inputs under the three hash seeds (one interpreter per seed)
+    vop = {"op": "valid", "xs": VALIDITY_PROBES}
+    vres = {hs: fresh(vop, hs) for hs in ("0", "1", "2", "3", "4", "random")}
+    for hs in ("1", "2", "3", "4", "random"):
+        if vres[hs] != vres["0"]:
+            bad = [(x, a, b) for x, a, b in zip(VALIDITY_PROBES, vres["0"], vres[hs]) if a != b][:2] if isinstance(vres[hs], list) and isinstance(vres["0"], list) else [vres[hs]]
+            TABLE["__hashseed_violation__"] = {"op": "Color(x).is_valid / .rgb", "differs_for": bad, "hashseed": hs}
+            return
     # hash-seed independence of the reference itself (sample)
     sample = ops[:: max(1, len(ops) // 48)]
     for hs in ("1", "random"):
@@ -171,6 +196,8 @@ def apply_step(state, step, trace):
                     raise Violation("bulk-entry-depends-on-position-or-history", f"bulk entry {i} {s} (mode={step['mode']}, very_readable={step['very']}) = {got[i]!r}; alone in a fresh interpreter it gives {want!r}; list {specs}")
         elif do == "cli":
             op = {"op": "cli", "sheet": step["sheet"], "mode": step["mode"], "premium": step["premium"]}
+            if step.get("default_bg"):
+                op["default_bg"] = step["default_bg"]
             got = c15ops.run_op(op)
             want = expected(op)
             if got != want:
@@ -294,6 +321,12 @@ class PurityMachine(RuleBasedStateMachine):
         self._do({"do": "cli", "sheet": sheet, "mode": mode, "premium": premium})
         self.after_bulk_or_cli = True
 
+    @rule(k=st.integers(0, len(CLI_EXTRA) - 1))
+    def cli_with_default_bg(self, k):
+        e = CLI_EXTRA[k]
+        self._do({"do": "cli", "sheet": e["sheet"], "mode": e["mode"], "premium": e["premium"], "default_bg": e["default_bg"]})
+        self.after_bulk_or_cli = True
+
     def teardown(self):
         part = self._verif_part
         if part is not None and self.trace:
@@ -369,9 +402,38 @@ def thread_strategy():
     return st.tuples(st.lists(st.integers(0, n - 1), min_size=16, max_size=48), st.sampled_from([2, 4, 8, 8])).map(lambda t: {"order": t[0], "threads": t[1]})
 
 
+def cold_items(shard, nshards):
+    n = 6 if TIER == "quick" else 48
+    return [{"child": i} for i in range(n) if i % nshards == shard]
+
+
+def cold_judge(case):
+    """A brand-new interpreter whose very first library calls come from 8 threads at once (1 microsecond switch interval):
+    lazily initialised module state must not make results depend on who gets there first."""
+    if "__hashseed_violation__" in TABLE:
+        raise Violation("hash-seed-dependent", str(TABLE["__hashseed_violation__"]))
+    w = _workload()
+    k = case["child"]
+    ops = w[k % len(w):] + w[: k % len(w)]
+    env = dict(os.environ)
+    env["PYTHONPATH"] = os.pathsep.join([os.path.join(env.get("VERIF_REPO", "/repo"), "src"), VERIF_DIR])
+    p = subprocess.run([sys.executable, "-m", "vlib.c15ops", "--cold", json.dumps(ops)], env=env, capture_output=True, text=True, cwd=VERIF_DIR, timeout=900)
+    if p.returncode != 0:
+        raise Violation("cold-start-crash", f"fresh interpreter with concurrent first calls died: {p.stderr[-300:]}")
+    doc = json.loads(p.stdout.strip().splitlines()[-1])
+    if doc["errors"]:
+        raise Violation("cold-start-thread-raises", f"first calls made concurrently from 8 threads in a fresh interpreter raised: {doc['errors'][:2]}")
+    for op, got in zip(ops, doc["results"]):
+        want = expected(op)
+        if got != want:
+            raise Violation("cold-start-result-differs", f"{op} as one of the first concurrent calls of a fresh interpreter gave {got!r}; alone it gives {want!r}")
+    return {"nt": ("cold", k), "cls": ["cold-start-threads"], "sample": {"child": k, "first_ops": ops[:3]}}
+
+
 def subchecks(tier):
     q = tier == "quick"
     return [
         Hyp("history-state-machine", machine_factory, machine_judge, examples=320 if q else 6400, stateful=True, step_count=30 if q else 50),
         Hyp("threads-fixed-workload", thread_strategy, thread_judge, examples=24 if q else 320, shards=4 if q else 16),
+        Enum("cold-start-threads", judge=cold_judge, items=cold_items, shards=6 if q else 16),
     ]
